@@ -189,9 +189,31 @@ def quiet(ctx):
 
 
 def _memo_parse(path, missing_data_token=None):
+    """Model.parse_model, memoised by the bytes it reads.  Under the scheduler a parse is
+    ONE yield point followed by an atomic read of all its files - with or without the
+    memo, hit or miss - so that the schedule never depends on the state of the memo."""
+    fs = simfs._ACTIVE[0]
+    if fs is not None and fs.k is not None:
+        fs._before_read('parse', str(path))
+        fs.quiet_reads += 1
+        try:
+            return _memo_parse_inner(path, missing_data_token)
+        finally:
+            fs.quiet_reads -= 1
+    return _memo_parse_inner(path, missing_data_token)
+
+
+def _memo_parse_inner(path, missing_data_token=None):
     orig = _P['orig_parse']
     if not _MEMO_ON[0]:
-        return orig(path, missing_data_token)
+        model = orig(path, missing_data_token)
+        try:
+            from pharmpy.modeling import load_dataset
+            if model.dataset is None and model.datainfo is not None and model.datainfo.path is not None:
+                model = load_dataset(model)
+        except Exception:
+            pass
+        return model
     path = str(path)
     try:
         with simfs._orig['open'](path, 'rb') as fh:
@@ -1062,6 +1084,6 @@ def budget(tier):
         return {'runs': 3200, 'chunk': 16, 'selftest_every': 50, 'xproc_runs': 6, 'run_timeout': 1500,
                 'chunk_timeout': 3000, 'wall_limit': 4 * 3600, 'shrink_evals': 60, 'shrink_seconds': 600,
                 'xproc_timeout': 2400}
-    return {'runs': 240, 'chunk': 4, 'selftest_every': 24, 'xproc_runs': 4, 'run_timeout': 300,
+    return {'runs': 400, 'chunk': 5, 'selftest_every': 24, 'xproc_runs': 4, 'run_timeout': 300,
             'chunk_timeout': 900, 'wall_limit': 1500, 'shrink_evals': 40, 'shrink_seconds': 240,
             'xproc_timeout': 900}
